@@ -12,7 +12,7 @@ fn digest(l: &PriceLevel) -> String {
     // orders with equal timestamps are listed in map order, which differs between two levels:
     // canonical order = (timestamp, id)
     let mut ol = l.iter_orders();
-    ol.sort_by_key(|o| (o.timestamp(), o.id().to_string()));
+    ol.sort_by_key(|o| (o.timestamp(), id_num(&o.id()), format!("{:?}", o.id())));
     let os: Vec<Value> = ol.iter().map(|o| order_json(o)).collect();
     json!({"price": l.price(), "vis": l.visible_quantity(), "hid": l.hidden_quantity(), "cnt": l.order_count(), "orders": os}).to_string()
 }
@@ -53,11 +53,32 @@ fn facts(text: &[u8]) -> Value {
     }
 }
 
+/// what the PROPERTY needs to know about a faulted text, read off the text with a generic JSON parser
+/// (no library type, no checksum recipe): is it JSON at all, the version it states, whether the stored
+/// checksum and the content (price, stored aggregates, the order list) are those of the original package
+fn jfacts(text: &[u8], orig: &Value) -> Value {
+    match serde_json::from_slice::<Value>(text) {
+        Ok(v) if v.is_object() => {
+            let ver = v["version"].as_u64().map(|x| x.min(1 << 40) as i64).unwrap_or(-1);
+            let sumsame = v["checksum"].is_string() && v["checksum"] == orig["checksum"];
+            let (a, b) = (&v["snapshot"], &orig["snapshot"]);
+            let contentsame = ["price", "visible_quantity", "hidden_quantity", "order_count", "orders"].iter().all(|k| a[*k] == b[*k]);
+            json!({"parsed": true, "ver": ver, "sumsame": sumsame, "contentsame": contentsame})
+        }
+        _ => json!({"parsed": false, "ver": -1, "sumsame": false, "contentsame": false}),
+    }
+}
+
+thread_local! {
+    static ORIG_PKG: std::cell::RefCell<Value> = std::cell::RefCell::new(Value::Null);
+}
+
 fn line(out: &mut Vec<String>, pk: usize, kind: &str, pos: usize, arg: &str, trunc: bool, res: (String, String), orig: &str, text: &[u8]) {
     // the digest is only written when it differs (keeps the trace small); "same" is a string
     // comparison result the specification re-checks on the lines that carry both digests
     let same = res.0 == "ok" && res.1 == orig;
-    let mut v = json!({"k": "f", "pk": pk, "f": kind, "pos": pos, "arg": arg, "trunc": trunc, "res": res.0, "same": same, "pkg": facts(text)});
+    let j = ORIG_PKG.with(|o| jfacts(text, &o.borrow()));
+    let mut v = json!({"k": "f", "pk": pk, "f": kind, "pos": pos, "arg": arg, "trunc": trunc, "res": res.0, "same": same, "pkg": facts(text), "j": j});
     if res.0 == "ok" && !same {
         v["got"] = json!(res.1);
     }
@@ -156,6 +177,7 @@ pub fn run(sc: &Value, pk: usize) -> Vec<String> {
     };
     let orig = digest(&level);
     let bytes = text.as_bytes().to_vec();
+    ORIG_PKG.with(|o| *o.borrow_mut() = serde_json::from_str::<Value>(&text).unwrap_or(Value::Null));
     // the unmodified package must restore to the same content
     let base = try_restore(&text);
     out.push(json!({"k": "pkg", "pk": pk, "len": bytes.len(), "orig": orig, "res": base.0, "same": base.1 == orig, "text": text}).to_string());
